@@ -81,6 +81,15 @@ def gen_cases(tier, seed):
             else:
                 t["h"] = 0.35 * dev["film"]["h"]
         cases.append({"device": dev, "post": post, "seed": int(rng.integers(1 << 30)), "cost": {"small": 5, "medium": 15, "large": 60}[size]})
+    for j in range(2 if tier == "quick" else 6):
+        # exactly structured tiny meshes: a rectangle given by its corners (and side midpoints), no refinement. Pairs of right
+        # triangles share their circumcentre (cocircular sites, zero dual edge length): weakly Delaunay, cells still well defined
+        dev = zoo.gen_device(rng, n_terminals=0, n_holes=0, probes=0, size="small", film_kind="box", smooth=0, xi=float(rng.choice([0.1, 1.0])))
+        dev["film"]["points"] = [4, 8, 12][j % 3]
+        dev["mesh"].update(max_edge_length=0.0, min_points=None, smooth=[0, 100][j % 2])
+        if j % 2:
+            dev["offset"] = [float(rng.uniform(-5, 5)), float(rng.uniform(-5, 5))]
+        cases.append({"device": dev, "post": [None, "translate_inplace"][j % 2], "seed": int(rng.integers(1 << 30)), "cost": 2})
     return cases
 
 
